@@ -35,7 +35,7 @@ func (e *Env) child() *Env {
 }
 
 func (c *Ctx) baseEnv(st, old *State) *Env {
-	env := &Env{c: c, names: map[string]*Val{}, st: st, old: old, pkgPath: c.fn.Pkg.Pkg.Path()}
+	env := &Env{c: c, names: map[string]*Val{}, st: st, old: old, pkgPath: fnPkgPath(c.fn)}
 	for k, v := range c.paramVals {
 		env.names[k] = v
 	}
